@@ -6,7 +6,7 @@
    this specification against Go) and once for seq.NewMapIter -- and this
    module accepts or rejects the file.  Many loops per file (reset idiom).
      {"op":"reset","keys":[..],"nilval":K}   a loop starts over a map with these keys
-                                              (key 0 is the nil interface key; the value of
+                                              (key 0 is the nil interface key, key 4 a NaN; the value of
                                               key k is 10*k, the value of key nilval is nil = -1)
      {"op":"visit","k":K,"v":V}              the loop body was entered with this pair
      {"op":"delete","k":K} {"op":"insert","k":K}   mutation made by the body
